@@ -25,7 +25,6 @@ for p in props:
         "quick_cmd": "./check %s quick" % pid,
         "thorough_cmd": "./check %s thorough" % pid,
         "evidence_file": "/verif/evidence/%s.json" % pid,
-        "replay_cmd_template": "./check %s quick --replay {path}" % pid,
         "engine": getattr(m, "ENGINE", "tlc+go-harness"),
         "level_claimed": {"category": m.LEVEL, "text": getattr(m, "LEVEL_TEXT", (m.__doc__ or "").strip()),
                           "design_ref": getattr(m, "DESIGN_REF", "DESIGN.md section 5, " + pid)},
